@@ -339,13 +339,21 @@ where
         return Ok(poly);
     }
 
-    let half = chebyshev(n / 2, tol)?;
-    if n % 2 == 0 {
-        Ok(&half * &half * N::from_u8(2).unwrap() - polynomial![N::one()])
-    } else {
-        let other_half = chebyshev(n / 2 + 1, tol)?;
-        Ok(&half * &other_half * N::from_u8(2).unwrap() - polynomial![N::one(), N::zero()])
+    // T_{k+1} = 2x T_k - T_{k-1}. The product with the linear factor 2x is exact, unlike the
+    // doubling formulas, whose polynomial products go through the FFT and leave leading noise.
+    let mut t_0 = polynomial![N::one()];
+    t_0.set_tolerance(tol)?;
+    let mut t_1 = polynomial![N::one(), N::zero()];
+    t_1.set_tolerance(tol)?;
+    let mut double = polynomial![N::from_u8(2).unwrap(), N::zero()];
+    double.set_tolerance(tol)?;
+
+    for _ in 1..n {
+        let next = &double * &t_1 - &t_0;
+        t_0 = t_1;
+        t_1 = next;
     }
+    Ok(t_1)
 }
 
 /// Get the nth chebyshev polynomial of the second kind.
